@@ -1,6 +1,8 @@
 package props
 
 import (
+	"github.com/influxdata/kapacitor/zz_sim/simtime"
+	_ "time/tzdata" // the zone database, independent of the machine
 	"errors"
 	"fmt"
 	"strings"
@@ -21,6 +23,7 @@ type c16Scenario struct {
 	PeriodS    int    `json:"period_s"`
 	EveryS     int    `json:"every_s"` // 0 => cron
 	Cron       string `json:"cron,omitempty"`
+	TZ         string `json:"server_time_zone,omitempty"` // "" = UTC; the daemon's local zone for this run
 	OffsetS    int    `json:"offset_s"`
 	Align      bool   `json:"align"`
 	GroupBy    string `json:"group_by"` // "", "time", "tag", "star", "time+tag"
@@ -28,8 +31,10 @@ type c16Scenario struct {
 	PhaseMs    int    `json:"start_phase_ms"`
 	RunS       int    `json:"run_s"`
 	Undeclared bool   `json:"query_names_undeclared_db"`
+	SubQuery   bool   `json:"undeclared_db_inside_a_subquery,omitempty"`
 	FailNode   bool   `json:"downstream_node_fails"`
 	SlowMs     int    `json:"query_latency_ms"`
+	SlowFirst  int    `json:"only_the_first_n_queries_are_slow,omitempty"` // 0: every query takes query_latency_ms
 	ErrEvery   int    `json:"query_err_every"`
 	JumpS      int    `json:"clock_jump_s"`
 	Script     string `json:"script"`
@@ -53,6 +58,12 @@ func c16Gen(c *Ctx) *c16Scenario {
 	sc.PeriodS = []int{10, 1, 5, 60}[g.Intn(4)]
 	if g.Chance(1, 5) {
 		sc.Cron = []string{"*/5 * * * * * *", "*/2 * * * * * *", "0,30 * * * * * *"}[g.Intn(3)]
+		if g.Chance(1, 3) {
+			// a server whose local zone is 5h30 ahead of UTC and a schedule that names the minute: the world starts at
+			// 05:06:07Z = 10:36:07 local, so this schedule fires only if it is evaluated in the server's local time,
+			// live and in the list of past queries alike
+			sc.TZ, sc.Cron = "Asia/Kolkata", "*/5 36,37 * * * * *"
+		}
 	} else {
 		sc.EveryS = []int{2, 1, 5, 10}[g.Intn(4)]
 		sc.Align = g.Bool()
@@ -63,12 +74,19 @@ func c16Gen(c *Ctx) *c16Scenario {
 	sc.PhaseMs = g.Intn(10000)
 	sc.RunS = g.Range(8, 45)
 	sc.Undeclared = g.Chance(1, 10)
+	sc.SubQuery = sc.Undeclared && g.Bool()
 	if !c.FaultFree {
 		if g.Chance(1, 4) {
 			sc.FailNode = true
 		}
 		if g.Chance(1, 3) {
 			sc.SlowMs = []int{100, 900, 2500, 7000}[g.Intn(4)]
+			if g.Bool() && sc.Cron == "" {
+				// InfluxDB recovers after 1-3 queries that took several intervals each (ticks were dropped meanwhile):
+				// the task must catch up with the schedule
+				sc.SlowFirst = g.Range(1, 3)
+				sc.SlowMs = g.Range(3, 7) * sc.EveryS * 1000
+			}
 		}
 		if g.Chance(1, 4) {
 			sc.ErrEvery = g.Range(2, 4)
@@ -82,6 +100,10 @@ func c16Gen(c *Ctx) *c16Scenario {
 		db = "otherdb"
 	}
 	q := fmt.Sprintf("SELECT mean(\"v\") FROM \"%s\".\"rp\".\"m\"", db)
+	if sc.Undeclared && sc.SubQuery {
+		// the undeclared database only appears inside a subquery
+		q = "SELECT mean(\"v\") FROM (SELECT max(\"v\") AS \"v\" FROM \"otherdb\".\"rp\".\"m\" GROUP BY \"host\")"
+	}
 	if sc.Where != "" {
 		q += " WHERE " + sc.Where
 	}
@@ -147,6 +169,15 @@ func c16Analyse(q string) (*influxql.SelectStatement, influxql.Expr, influxql.Ti
 func runC16(c *Ctx) Verdict {
 	sc := c16Gen(c)
 	c.Scenario = sc
+	if sc.TZ != "" {
+		// the worker runs one case at a time and every simulated goroutine of earlier cases is gone: the process-wide
+		// local zone can be set for the duration of this case
+		loc, err := time.LoadLocation(sc.TZ)
+		if err != nil {
+			return Fail("harness/setup", "time zone %s: %v", sc.TZ, err)
+		}
+		defer simtime.SetLocal(loc)()
+	}
 	cfg := c.WorldConfig()
 	cfg.MaxSteps = 4_000_000
 	if cfg.TimerLateNs > int64(50*time.Millisecond) {
@@ -156,7 +187,12 @@ func runC16(c *Ctx) Verdict {
 	shape := map[string]interface{}{"where_has_top_level_or": strings.Contains(sc.Where, " OR ") && !strings.HasPrefix(sc.Where, "("), "align": sc.Align, "cron": sc.Cron != "", "downstream_node_fails": sc.FailNode}
 	fi := &harness.FakeInflux{}
 	nq := 0
-	fi.QueryLatency = func() time.Duration { return time.Duration(sc.SlowMs) * time.Millisecond }
+	fi.QueryLatency = func() time.Duration {
+		if sc.SlowFirst > 0 && len(fi.Queries) > sc.SlowFirst {
+			return 0
+		}
+		return time.Duration(sc.SlowMs) * time.Millisecond
+	}
 	fi.QueryErr = func() error {
 		nq++
 		if sc.ErrEvery > 0 && nq%sc.ErrEvery == 0 {
@@ -201,7 +237,7 @@ func runC16(c *Ctx) Verdict {
 			done()
 			// what recording a batch task does: a fresh, never started ExecutingTask is asked for the queries of a span, which are then run
 			if rt, err := kapacitor.NewExecutingTask(d.TM, task); err == nil {
-				listed, listErr = rt.BatchQueries(t0, t0.Add(30*time.Second))
+				listed, listErr = rt.BatchQueries(t0.UTC(), t0.Add(30*time.Second).UTC())
 			}
 			return
 		}
@@ -212,7 +248,7 @@ func runC16(c *Ctx) Verdict {
 		}
 		time.Sleep(half)
 		t1 = time.Now()
-		hist, histErr = et.BatchQueries(t0, t1)
+		hist, histErr = et.BatchQueries(t0.UTC(), t1.UTC()) // as the recording API passes them: parsed from RFC3339, in UTC
 		simrt.Fair()
 		done := simrt.Expect("StopTask", 3_000_000, time.Hour)
 		d.TM.StopTask("B")
@@ -314,6 +350,16 @@ func runC16(c *Ctx) Verdict {
 			v.Shape = shape
 			return v
 		}
+		// never stale: if the previous query had been answered before this tick was due, this tick's query goes out
+		// promptly (the ticker may drop ticks while the task is busy, it must not fall behind for good)
+		if i > 0 && sc.Cron == "" && fi.Queries[i-1].DoneNs > 0 && sc.JumpS == 0 {
+			prevDone := time.Unix(0, simrt.Epoch+fi.Queries[i-1].DoneNs)
+			if issued.Sub(prevDone) > 300*time.Millisecond && issued.After(tick.Add(250*time.Millisecond)) {
+				v := Fail("query/stale", "query #%d for tick %s was issued at %s, %v after the tick, although the previous query had been answered at %s and the task then waited %v for this tick: it was not a tick left over from a busy spell, and timers are at most 50ms late", i, tick.Format(time.RFC3339Nano), issued.Format(time.RFC3339Nano), issued.Sub(tick), prevDone.Format(time.RFC3339Nano), issued.Sub(prevDone))
+				v.Shape = shape
+				return v
+			}
+		}
 		// tick lies on the schedule lattice
 		switch {
 		case sc.Cron != "":
@@ -324,6 +370,8 @@ func runC16(c *Ctx) Verdict {
 				okc = okc && sec%5 == 0
 			case "*/2 * * * * * *":
 				okc = okc && sec%2 == 0
+			case "*/5 36,37 * * * * *":
+				okc = okc && sec%5 == 0 && (tick.Local().Minute() == 36 || tick.Local().Minute() == 37)
 			default:
 				okc = okc && (sec == 0 || sec == 30)
 			}
@@ -367,6 +415,13 @@ func runC16(c *Ctx) Verdict {
 	// the historical list for the same span is what the live ticks issued
 	if histErr != nil {
 		return Fail("history/error", "BatchQueries(%s, %s): %v", t0.Format(time.RFC3339Nano), t1.Format(time.RFC3339Nano), histErr)
+	}
+	if sc.TZ != "" {
+		c.Counters["obs.tz_cases"]++
+		c.Counters["obs.tz_live_queries"] += int64(len(fi.Queries))
+		if len(hist) == 1 {
+			c.Counters["obs.tz_listed_queries"] += int64(len(hist[0].Queries))
+		}
 	}
 	if clean && len(hist) == 1 {
 		var hs []time.Time
@@ -433,7 +488,7 @@ func init() {
 	Register(&Prop{
 		ID:  "C16",
 		Run: runC16,
-		Rule: "case = a batch task with one of 7 WHERE shapes (none, AND/OR nests with and without parentheses, regex, an existing time predicate) x period 1s-1m x every 1-10s (aligned or not) or cron x offset 0/1s/30s x groupBy none/time/tag/*/time+tag x fill x a seeded start phase (0-10s) x 8-45s of virtual run time, against a fake InfluxDB with seeded latency, errors, a forward clock jump, late timers, an optionally failing downstream node, and an optionally undeclared database; " +
+		Rule: "case = a batch task with one of 7 WHERE shapes (none, AND/OR nests with and without parentheses, regex, an existing time predicate) x period 1s-1m x every 1-10s (aligned or not) or cron (also on a server whose local zone is 5h30 ahead of UTC, with a schedule that names the minute) x offset 0/1s/30s x groupBy none/time/tag/*/time+tag x fill x a seeded start phase (0-10s) x 8-45s of virtual run time, against a fake InfluxDB with seeded latency (for every query or only for the first 1-3), errors, a forward clock jump, late timers, an optionally failing downstream node, and an optionally undeclared database (named directly or inside a subquery); " +
 			"non-trivial = at least one query was issued; distinct = distinct (scenario, interleaving signature) pairs",
 		Real:        []string{"BatchNode, QueryNode (doQuery, Queries, runBatch, stopBatch), timeTicker, cronTicker", "Query (NewQuery, Clone, Dimensions, Fill, SetStartTime/SetStopTime)", "ExecutingTask.StartBatching/BatchQueries/checkDBRPs", "TaskMaster StartTask/StopTask, edges, LogNode, AlertNode (failing node variant)", "influxql (uninstrumented) to re-parse every query the way InfluxDB would"},
 		Stub:        []string{"InfluxDB client on the existing seam: records queries with the virtual time of issue; seeded latency and errors", "libflux C stub (never called)"},
